@@ -206,8 +206,28 @@ def run_batch(cases, rec=None):
             todo.append((c, exp))
         if not todo:
             continue
-        outs = wbk.eval_formulas([{'title': 'S', 'cells': cells}], [c['formula'] for c, _ in todo], first_col=3,
-                                 ncols=10, overrides=ov)
+        # the same formula texts once more on a second sheet whose cells hold other values: an unqualified reference means the
+        # sheet the formula sits on
+        cells_t = {k: (v + 1 if isinstance(v, (int, float)) and not isinstance(v, bool) else v) for k, v in cells.items()}
+        twin = []
+        if any('ast' in c for c, _ in todo) and int(env.chash([g[0]['cells'], g[0]['overrides']]), 16) % 2 == 0:
+            for c, _ in todo:
+                if 'ast' not in c:
+                    continue
+                try:
+                    twin.append((c, reference(c['ast'], {**{r: None for r in REFS}, **cells_t})))
+                except (F.OutOfDomain, OverflowError):
+                    pass
+        sheets_ = [{'title': 'S', 'cells': cells}] + ([{'title': 'T', 'cells': cells_t}] if twin else [])
+        outs_all = wbk.eval_formulas(sheets_, [c['formula'] for c, _ in todo] + [c['formula'] for c, _ in twin], first_col=3,
+                                     ncols=10, overrides=ov, on=['S'] * len(todo) + ['T'] * len(twin))
+        outs = outs_all[:len(todo)]
+        for (c, exp_t), o in zip(twin, outs_all[len(todo):]):
+            if rec:
+                rec.case({'f': c['formula'], 'v': cells_t, 'sheet': 'T'}, False, ['lane:second-sheet'])
+            for f in judge({**c, 'cells': cells_t, 'overrides': {}, 'sheet': 'T'}, o, exp_t):
+                f['bucket'] = 'second-sheet:' + f['bucket']
+                fails.append(f)
         for (c, exp), o in zip(todo, outs):
             if rec:
                 if 'literal' in c:
@@ -236,6 +256,19 @@ def run_case(case):
     c = dict(case)
     if 'ast' in c:
         c['formula'] = F.render(c['ast'], c.get('gaps'))
+    if c.get('sheet') == 'T':
+        # a failure on the second sheet: S holds the same text over values one lower
+        s_cells = {k: (v - 1 if isinstance(v, (int, float)) and not isinstance(v, bool) else v) for k, v in c['cells'].items()}
+        out = wbk.eval_formulas([{'title': 'S', 'cells': s_cells}, {'title': 'T', 'cells': c['cells']}], [c['formula'], c['formula']], first_col=3, ncols=10,
+                                on=['S', 'T'])
+        try:
+            exp = reference(c['ast'], {**{r: None for r in REFS}, **c['cells']})
+        except (F.OutOfDomain, OverflowError):
+            return []
+        fs = judge(c, out[1], exp)
+        for f in fs:
+            f['bucket'] = 'second-sheet:' + f['bucket']
+        return fs
     return run_batch([c])
 
 
